@@ -287,7 +287,11 @@ class JsonSchemaParser:
                 or attname.startswith('_')      # underscore-prefixed attributes are never fields
             ):
                 # also keep clear of the attributes of the base class (dict methods like `items`, `update`)
-                attname = self.get_attname(attname, excludes=list(attrs) + dir(self.object_base_cls))
+                # and of the other property names (an attribute name is an accepted key of its field)
+                attname = self.get_attname(
+                    attname,
+                    excludes=list(attrs) + [k for k in properties if k != key] + dir(self.object_base_cls)
+                )
             alias = None
             if attname != key:
                 alias = key
